@@ -747,7 +747,7 @@ type mon struct{}
 func (mon) Name() string { return "relay" }
 
 func (mon) Level(string) (string, string) {
-	return "exploration", "requests whose handler behaviour is encoded in the URI (status 200..599 set once or not at all, body or not, panic before / after header / after body / none, twelve panic value kinds incl. error, wrapped error, errors wrapping / joining / textually equal to http.ErrAbortHandler, typed-nil pointer, panic(nil), []byte; matched and unmatched routes) sent (1) over real loopback HTTP connections to an http.Server running Mux+Relay and (2) through ServeHTTP with a recorder (odd RemoteAddr forms, unknown methods), with 1, 8 and 64 requests in flight, for all three log handlers at thresholds Info, Error and Fatal. Every Write on the log destination is parsed as one record; records are joined with the client's log by request id: exactly one REQ_BEG and REQ_END with the request's method/URI/ip/id, END code == status on the wire, 500 iff panic before any write, one Error record with the panic value iff the handler panicked, no panic escaping Relay. Full behaviour product sequentially + seeded concurrent batches; -race build. distinct_nontrivial = distinct (handler, threshold, path, behaviour) combinations observed"
+	return "exploration", "requests whose handler behaviour is encoded in the URI (status 200..599 set once or not at all - every single code in a separate sweep -, body or not, panic before / after header / after body / none, twelve panic value kinds incl. error, wrapped error, errors wrapping / joining / textually equal to http.ErrAbortHandler, typed-nil pointer, panic(nil), []byte; matched and unmatched routes) sent (1) over real loopback HTTP connections to an http.Server running Mux+Relay and (2) through ServeHTTP with a recorder (odd RemoteAddr forms, unknown methods), with 1, 8 and 64 requests in flight, for all three log handlers at thresholds Info, Error and Fatal. Every Write on the log destination is parsed as one record; records are joined with the client's log by request id: exactly one REQ_BEG and REQ_END with the request's method/URI/ip/id, END code == status on the wire, 500 iff panic before any write, one Error record with the panic value iff the handler panicked, no panic escaping Relay. Full behaviour product sequentially + seeded concurrent batches; -race build. distinct_nontrivial = distinct (handler, threshold, path, behaviour) combinations observed"
 }
 
 type shardArgs struct {
@@ -858,6 +858,18 @@ func (mn mon) Run(sh drv.Shard, c *drv.Ctx) {
 						return
 					}
 				}
+			}
+		}
+		// every status code 200..599, set once, with and without a body, no panic
+		var all []ReqSpec
+		for code := 200; code <= 599; code++ {
+			for _, body := range []bool{false, true} {
+				all = append(all, ReqSpec{N: len(all) + 1, Method: "GET", Match: true, Code: code, Body: body, Copy: body && code%2 == 0, Remote: remotes[code%len(remotes)]})
+			}
+		}
+		for i, kind := range logrun.Kinds {
+			if !exec(Case{Kind: kind, Threshold: 1, Wire: i == 1, Conc: 1 + 7*(i%2), Reqs: all}) {
+				return
 			}
 		}
 		// IPv6 loopback, when available
